@@ -298,12 +298,19 @@ Definition sl_comp_enc (c : comp) : list Z :=
 Definition sl_comp_packable (c : comp) : bool :=
   flag_set (c_flags c) 1 || flag_set (c_flags c) 2 || flag_set (c_flags c) 3
   || (u8_ok (c_flags c) && u8_ok (c_len c)).
-(* Component.factory(name) *)
+(* Component.factory(name) = factory(name, literal=False) *)
 Definition sl_factory (name : list Z) : comp :=
   if zlist_eqb name s_dot then mk_comp 2 0 name
   else if zlist_eqb name s_dotdot then mk_comp 4 0 name
   else if zlist_eqb name s_slash then mk_comp 8 0 name
   else mk_comp 0 (zlen name) name.
+(* Component.factory(name, literal=True): a piece of a longer name, '.', '..', '/' mean nothing *)
+Definition sl_factory_lit (name : list Z) : comp := mk_comp 0 (zlen name) name.
+Definition sl_factory_gen (literal : bool) (name : list Z) : comp :=
+  if literal then sl_factory_lit name else sl_factory name.
+(* Component.recorded_length() *)
+Definition comp_recorded_length (c : comp) : Z :=
+  if flag_set (c_flags c) 1 || flag_set (c_flags c) 2 || flag_set (c_flags c) 3 then 2 else 2 + c_len c.
 
 Definition al_comp_enc (c : comp) : list Z := [c_flags c; c_len c] ++ c_data c.
 Definition al_comp_packable (c : comp) : bool := u8_ok (c_flags c) && u8_ok (c_len c).
@@ -335,7 +342,9 @@ Fixpoint parse_comps (ok : Z -> Z -> bool) (fuel : nat) (rrstr : list Z) (cr_off
 Record sl_rec := mk_sl { sl_flags : Z; sl_comps : list comp }.
 (* RRSLRecord.length(names) *)
 Definition len_sl (names : list (list Z)) : Z := fold_left (fun l n => l + sl_comp_length n) names 5.
-Definition sl_current_length (s : sl_rec) : Z := len_sl (map comp_name (sl_comps s)).
+(* RRSLRecord.current_length(): header_length() + the recorded_length() of every component *)
+Definition sl_current_length (s : sl_rec) : Z :=
+  fold_left (fun l c => l + comp_recorded_length c) (sl_comps s) 5.
 Definition enc_sl (s : sl_rec) : list Z :=
   (sig_SL ++ concat [[sl_current_length s]; [SU_ENTRY_VERSION]; [sl_flags s]])
   ++ concat (map sl_comp_enc (sl_comps s)).
@@ -352,10 +361,11 @@ Definition parse_sl (rrstr : list Z) : option sl_rec :=
       end
   | _ => None
   end.
-(* add_component(name): None = PyCdlibInvalidInput('Symlink would be longer than 255') *)
-Definition sl_add_component (s : sl_rec) (name : list Z) : option sl_rec :=
-  if 255 <? sl_current_length s + sl_comp_length name then None
-  else Some (mk_sl (sl_flags s) (sl_comps s ++ [sl_factory name])).
+(* add_component(name, literal): None = PyCdlibInvalidInput('Symlink would be longer than 255') *)
+Definition sl_add_component (s : sl_rec) (name : list Z) (literal : bool) : option sl_rec :=
+  let c := sl_factory_gen literal name in
+  if 255 <? sl_current_length s + comp_recorded_length c then None
+  else Some (mk_sl (sl_flags s) (sl_comps s ++ [c])).
 Definition sl_set_continued (s : sl_rec) : sl_rec := mk_sl (Z.lor (sl_flags s) 1) (sl_comps s).
 
 (* RRSLRecord.name() *)
@@ -376,7 +386,9 @@ Definition sl_name (cs : list comp) : list Z :=
   LongNames.join_slash (fst (fold_left sl_name_step cs ([], false))).
 
 (* the components _new_symlink hands to add_component for a target that needs no cutting:
-   for index, comp in enumerate(symlink_path.split(b'/')): if index == 0 and comp == b'': comp = b'/' *)
+   for index, comp in enumerate(symlink_path.split(b'/')): if index == 0 and comp == b'': comp = b'/' ;
+   '/', '.', '..' go through factory(comp), every other piece through factory(comp, literal=True), which for
+   a piece that is none of the three is the same component *)
 Definition components_of_target (t : list Z) : list comp :=
   match LongNames.split_slash t with
   | [] => []
@@ -545,12 +557,12 @@ Definition parse_entry (rtype recslice : list Z) : option (su_entry * Z) :=
   else if zlist_eqb rtype sig_AL then z E_AL (parse_al recslice)
   else None.
 
-(* the static length() of the entry's class, with the arguments the callers pass *)
+(* the static length() of the entry's class, with the arguments the callers pass (SL: current_length()) *)
 Definition static_len (v : rrv) (e : su_entry) : option Z :=
   match e with
   | E_SP _ => Some len_sp | E_RR _ => Some len_rr | E_CE _ => Some len_ce | E_PX _ => len_px v
   | E_ER x => Some (len_er (er_id x) (er_des x) (er_src x)) | E_ES _ => Some len_es
-  | E_PN _ => Some len_pn | E_SL s => Some (len_sl (map comp_name (sl_comps s)))
+  | E_PN _ => Some len_pn | E_SL s => Some (sl_current_length s)
   | E_NM n => Some (len_nm (nm_name n)) | E_CL _ | E_PL _ => Some len_link
   | E_RE | E_ST => Some len_re | E_TF t => Some (len_tf (tf_flags t)) | E_SF _ => len_sf v
   | E_PD p => Some (len_pd p) | E_AL a => Some (len_al (map c_data (al_comps a)))
@@ -559,12 +571,11 @@ Definition static_len (v : rrv) (e : su_entry) : option Z :=
 (* ---- range predicates under which parse (record x) = x (Proofs/RREntriesProofs.v) ---------- *)
 Definition bytes_ok (l : list Z) : bool := forallb u8_ok l.
 
-(* a component as it is after parse(): ./../root have no data; a plain one does not spell a name that
-   Component.length() takes for special *)
+(* a component as it is after parse(): ./../root have no data; a plain one may spell anything (a slice "." of
+   a longer name is a plain component: recorded_length() counts what record() writes) *)
 Definition sl_comp_ok (c : comp) : bool :=
   (mem_z (c_flags c) [2; 4; 8] && (c_len c =? 0) && match c_data c with [] => true | _ => false end)
-  || (mem_z (c_flags c) [0; 1] && (c_len c =? zlen (c_data c)) && u8_ok (c_len c)
-      && negb (is_special (c_data c))).
+  || (mem_z (c_flags c) [0; 1] && (c_len c =? zlen (c_data c)) && u8_ok (c_len c)).
 Definition al_comp_ok (c : comp) : bool :=
   mem_z (c_flags c) [0; 1] && (c_len c =? zlen (c_data c)) && u8_ok (c_len c).
 Definition sl_ok (s : sl_rec) : bool :=
